@@ -35,11 +35,19 @@
                                    e.g. [~ & -- --- `` ''], longest match as the tokenizer does it, with
                                    mandatory brace arguments if the context declares any)
 
-    NOT covered (rest of stage (d), stages (e4)-(e6)):
+             | (arguments)         per slot of the declared signature (stage (e4)): a braced group with
+                                   whitespace in front of it where the slot allows it; a delimited argument
+                                   [ws [ body tr ]] (any pair of single-character delimiters) written, or
+                                   [Abs2] when it is optional and not written; the marker [ws *] written or
+                                   [Abs2]; an absent argument is not followed (after whitespace) by its
+                                   opening character; the delimiter characters are not text DIRECTLY in the
+                                   body of a delimited argument (they are inside its braced children)
+
+    NOT covered (rest of stage (d), stages (e5)-(e6)):
     a paragraph break followed by indentation or directly after a control word /
     comment, paragraph-break whitespace in a context without the [\n\n] specials,
-    a comment ending at the end of input, optional star / bracket arguments, single-token
-    arguments, whitespace before an argument,
+    a comment ending at the end of input, single-token arguments, comments before an
+    argument, a delimited argument directly nested in the body of another one,
     verbatim (macro, environments, argument kind).
 
     Full statement (kept for reference, not proved):
@@ -209,6 +217,7 @@ Close Scope N_scope.
                       parsed in math mode when the environment is declared so; [bws], [ews] any
                       whitespace; only where the state has environments enabled)
               | Spc2 ws chars args          ws chars {arg}…{arg}   (a specials sequence of the context)
+              | Brk2 ws oc cc body tr | Abs2   (argument position only: a delimited argument, an absent one)
 
     The side conditions [ok_item2] see the whole FOLLOW STRING of an item. *)
 
@@ -224,11 +233,11 @@ Print Assumptions C02_parse_unparse2_partial.
     [opts_ok], any offset of any input, any follow string) *)
 Theorem C02_items_simulation2_partial : forall s cx l ps o st pos fol k r,
   Std cx ps -> opts_ok ps o -> r <> OutOfFuel ->
-  ok_items2 cx ps l fol = true ->
+  ok_items2 cx ps [] l fol = true ->
   skipn pos s = unparse_items2 l ++ fol ->
   run s false cx k (TCollect ps o (fst (absorb2 cx ps pos st l)) (pos + length (unparse_items2 l))) = r ->
   run s false cx (k + 8 * length (unparse_items2 l)) (TCollect ps o st pos) = r.
-Proof. intros s cx l. exact (items_sim2 s cx (lsize2 l) l (le_n _)). Qed.
+Proof. exact items_sim2_std. Qed.
 Print Assumptions C02_items_simulation2_partial.
 
 (** ** Whitespace never changes the structure (extended grammar) *)
@@ -334,3 +343,73 @@ Example C02_specials_nonvacuous :
    parse_top (unparse2 bad) false default_ctx (walker_state default_ctx) <> doc_result2 default_ctx bad) /\
   (ok_doc2 cx1 d3 = true /\ parse_top (unparse2 d3) false cx1 (walker_state cx1) = doc_result2 cx1 d3).
 Proof. vm_compute. repeat split. discriminate. Qed.
+
+(** optional arguments (stage (e4)):
+    [\section*[a]{b}\n\section {c}\item[x{]}\alpha ]y \sqrt[3] {\sqrt {}}\\ *[1]\item\n]
+    — star and bracket argument written / absent, a closing bracket inside a braced
+    child of a bracket argument, a macro call inside a bracket argument, whitespace in
+    front of a braced and of a star argument, an absent bracket argument at the end of
+    the input *)
+Definition c02_doc4 : doc2 :=
+  {| d_items2 :=
+       [Mac2 [] [115;101;99;116;105;111;110] []
+             [Text2 [] [42]; Brk2 [] 91 93 [Text2 [] [97]] []; Grp2 [] [Text2 [] [98]] []];
+        Mac2 [10] [115;101;99;116;105;111;110] [32] [Abs2; Abs2; Grp2 [] [Text2 [] [99]] []];
+        Mac2 [] [105;116;101;109] []
+             [Brk2 [] 91 93 [Text2 [] [120]; Grp2 [] [Text2 [] [93]] []; Mac2 [] [97;108;112;104;97] [32] []] []];
+        Text2 [] [121];
+        Mac2 [32] [115;113;114;116] []
+             [Brk2 [] 91 93 [Text2 [] [51]] [];
+              Grp2 [32] [Mac2 [] [115;113;114;116] [32] [Abs2; Grp2 [] [] []]] []];
+        Mac2 [] [92] [] [Text2 [32] [42]; Brk2 [] 91 93 [Text2 [] [49]] []];
+        Mac2 [] [105;116;101;109] [10] [Abs2]];
+     d_trail2 := [] |}.
+
+(** a whitespace variant of it *)
+Definition c02_doc4' : doc2 :=
+  {| d_items2 :=
+       [Mac2 [] [115;101;99;116;105;111;110] []
+             [Text2 [] [42]; Brk2 [] 91 93 [Text2 [] [97]] []; Grp2 [] [Text2 [] [98]] []];
+        Mac2 [32;32] [115;101;99;116;105;111;110] [10] [Abs2; Abs2; Grp2 [] [Text2 [] [99]] []];
+        Mac2 [] [105;116;101;109] []
+             [Brk2 [] 91 93 [Text2 [] [120]; Grp2 [] [Text2 [] [93]] []; Mac2 [] [97;108;112;104;97] [10] []] []];
+        Text2 [] [121];
+        Mac2 [10] [115;113;114;116] []
+             [Brk2 [] 91 93 [Text2 [] [51]] [];
+              Grp2 [9;9] [Mac2 [] [115;113;114;116] [32;32] [Abs2; Grp2 [] [] []]] []];
+        Mac2 [] [92] [] [Text2 [10] [42]; Brk2 [] 91 93 [Text2 [] [49]] []];
+        Mac2 [] [105;116;101;109] [32] [Abs2]];
+     d_trail2 := [] |}.
+
+Example C02_optional_arguments_nonvacuous :
+  (ok_doc2 default_ctx c02_doc4 = true /\
+   parse_top (unparse2 c02_doc4) false default_ctx (walker_state default_ctx) = doc_result2 default_ctx c02_doc4 /\
+   length (unparse2 c02_doc4) = 80%nat /\
+   length (fst (tree_of2 default_ctx (walker_state default_ctx) 0 c02_doc4)) = 8%nat) /\
+  (ws_variant2 c02_doc4 c02_doc4' /\ ok_doc2 default_ctx c02_doc4' = true /\
+   unparse2 c02_doc4 <> unparse2 c02_doc4' /\
+   structure_res (parse_top (unparse2 c02_doc4) false default_ctx (walker_state default_ctx))
+   = structure_res (parse_top (unparse2 c02_doc4') false default_ctx (walker_state default_ctx))).
+Proof.
+  split; [vm_compute; repeat split|].
+  split; [|split; [vm_compute; reflexivity|split; [vm_compute; discriminate|vm_compute; reflexivity]]].
+  unfold ws_variant2, wse. cbn. vm_compute. intuition (try discriminate; try reflexivity).
+Qed.
+
+(** the side conditions on optional arguments are not vacuous: [\item [] with the
+    bracket meant as text (an absent optional argument followed by [[]) is a parse
+    error; a closing bracket written as text directly inside a bracket argument
+    ([\item[a]]]) ends the argument; [\\ [1]] — the bracket argument of [\\] does not
+    allow whitespace in front of it — is [\\] without argument followed by text *)
+Example C02_optional_arguments_side_conditions_needed :
+  let bad1 := {| d_items2 := [Mac2 [] [105;116;101;109] [32] [Abs2]; Text2 [] [91]]; d_trail2 := [] |} in
+  let bad2 := {| d_items2 := [Mac2 [] [105;116;101;109] [] [Brk2 [] 91 93 [Text2 [] [97;93]] []]]; d_trail2 := [] |} in
+  let bad3 := {| d_items2 := [Mac2 [] [92] [] [Abs2; Brk2 [32] 91 93 [Text2 [] [49]] []]]; d_trail2 := [] |} in
+  let differs d := match parse_top (unparse2 d) false default_ctx (walker_state default_ctx) with
+                   | Ok (ONode (Some (NList _ _ l))) _ =>
+                       negb (Nat.eqb (length l) (length (fst (tree_of2 default_ctx (walker_state default_ctx) 0 d))))
+                   | _ => true end in
+  (ok_doc2 default_ctx bad1 = false /\ differs bad1 = true) /\
+  (ok_doc2 default_ctx bad2 = false /\ differs bad2 = true) /\
+  (ok_doc2 default_ctx bad3 = false /\ differs bad3 = true).
+Proof. vm_compute. repeat split. Qed.
